@@ -21,7 +21,7 @@ from tools.gen import luagen
 LEVEL = "proof"
 MANIFEST = dict(
     category="proof",
-    text="Lean 4 theorems (45, no hypotheses on size) over a hand model of wrapl.Wrapl.wrap_function/do_function/wrap_functions "
+    text="Lean 4 theorems (51, no hypotheses on size) over a hand model of wrapl.Wrapl.wrap_function/do_function/wrap_functions "
          "(all_calls = one call per overload and per omitted-default prefix, by_count, the emitted switch/if-chain with its lua_type "
          "tests, pop indices, object index, result counts, luaL_Reg tables) and of what the emitted skeleton does on a Lua stack. "
          "dispatch_correct: for EVERY Lua name (one signature or many; free function, constructor, method, destructor), every "
@@ -43,6 +43,13 @@ MANIFEST = dict(
          "per class at all sites, so a constructed object is accepted by its own methods and wherever its class is an argument, "
          "rejected under any other name, and a name nobody created is accepted nowhere (registry_complete, constructed_accepted_*, "
          "constructed_rejected_by_other_name, uncreated_name_accepted_nowhere, method_on_constructed_named); "
+         "which class a class argument means: find_lua_classes / class_arg_pop are modelled as a Python dict keyed by the "
+         "class's fully qualified typemap name (luaClassesFrom, dictGet: later insert wins; classArgPop: own class or the "
+         "'wrapped by another library' path): for every list of wrapped classes with distinct qualified names - equal unqualified "
+         "names in different namespaces included - an argument declared with a class's name is read through THAT class's userdata "
+         "struct and metatable name (class_arg_own_class, class_arg_found_is_the_type, constructed_accepted_as_named_argument), "
+         "an unknown type takes the foreign path (class_arg_unknown_is_foreign), for any keying the class found has the key asked "
+         "for (class_arg_found_has_key) and keyed by the unqualified name the statement is false (unqualified_key_confuses); "
          "objects: a constructor's userdata passes the object test of its own class only (method_on_constructed / "
          "method_on_foreign_object), any number of __gc calls runs the destructor once (gc_runs_destructor_once). No _partial "
          "statement is left; *_before_fix / old_* theorems are negation witnesses for the bodies written before the fix: commits.",
@@ -52,13 +59,19 @@ MANIFEST = dict(
          "tags, pop index per call argument, object index, result counts, else/default luaL_error, dtor body) == Lean `gen`; (D2) "
          "the luaL_Reg tables parsed from the text == Lean moduleRegs/classRegs computed from Shroud's JSON dump, and the metatable "
          "name at every site of the text (created / attached / demanded / demanded of an argument) == the model's, computed from the "
-         "class node's LUA_metadata; (D3) the outcome of "
+         "class node's LUA_metadata; (D4) the class index of every class-pointer parameter in the `gen` request is the answer of the "
+         "Lean classArgPop (driver op argcls) on the typemap names of the wrapped classes in Shroud's JSON dump, so the emitted "
+         "metatable name per class argument (and the userdata struct it is read through, against the class's LUA_userdata_type) is "
+         "compared with the model's resolution; (D3) the outcome of "
          "the compiled binding on the emulator == Lean `run`. Oracle (no model): the binding compiled with g++ against "
          "tools/ccheck/luaemu and an instrumented library, called with every offered signature (every arity from the first default "
          "to all parameters), one-tag-off variants at every position, wrong counts, random shapes, wrong/foreign/missing objects, "
          "__gc twice; verdict from the declarations in Python. Generated libraries: 0..6 parameters of mixed tags, defaults starting "
          "at every position, default values over zero/non-zero/empty for every kind, class-pointer arguments of the own and of "
-         "another wrapped class (right class, other class, userdata without metatable), user-chosen metatable names (format "
+         "another wrapped class (right class, other class, userdata without metatable), two wrapped classes with the same unqualified "
+         "name in different namespaces (either one carrying the format overrides that keep the C names apart) as arguments of "
+         "library functions, of each other's methods, at stack positions 1..3 and overloaded on the class (fixed library on every "
+         "run, 40% of the random ones), user-chosen metatable names (format "
          "field, class-level and library-level LUA_metadata_template), classes that register no method (constructors only) and "
          "are passed as arguments, namespace trees up to depth 4 whose nodes hold functions / only classes / only namespaces / "
          "nothing / are switched off, libraries without free functions, classes inside namespaces, overloads incl. same-tag and "
@@ -66,8 +79,14 @@ MANIFEST = dict(
          "constructors, const/static methods, a namespace. Trusted / modelled-not-verified: Lean kernel; the hand model; the "
          "emulator (written from the Lua 5.3 manual; no real Lua headers or interpreter installed); g++ (which C++ overload the "
          "emitted call selects is observed, not modelled); the JSON dump as the source of ast.name/LUA_name/LUA_name_impl. Not "
-         "covered: char* (no lua_statements entry), class arguments by value/reference and classes wrapped by another library "
-         "(emitted, compiled by C05, not driven here), intent(out)/inout arguments; equal Lua names from different scopes are characterised (later wins), not prevented.",
+         "covered: char* (no lua_statements entry); classes wrapped by another library (the foreign path is modelled - "
+         "class_arg_unknown_is_foreign - but neither generated nor driven); intent(out)/inout arguments: on the current code "
+         "out_args is never filled, the argument is counted as an input, never declared, and lua_push of 'XXXpush_arg' is written - "
+         "the binding does not compile (unfinished upstream feature outside the property's quantifier, not generated); equal Lua "
+         "names from different scopes (and equal default C names l_<Class>_Type of same-named classes without format overrides) "
+         "are characterised (later wins), not prevented. Class arguments by reference and by value are generated in the fixed "
+         "library since fix 0b01d62 (before it they did not compile): same model as by pointer (userdata of the parameter's class "
+         "at the argument's index), the instrumented library records the identity of the object (or of the copy) it receives.",
     technique="Lean 4 proof (induction over the call list / registration list) + differential correspondence on emitted text, on "
               "registration tables and on the compiled binding driven through a C emulator of the Lua API",
 )
@@ -111,6 +130,13 @@ THEOREMS = {
         "Shroud.LuaDispatch.constructed_rejected_by_other_name",
         "Shroud.LuaDispatch.uncreated_name_accepted_nowhere",
         "Shroud.LuaDispatch.method_on_constructed_named",
+        # which class a class argument means (find_lua_classes / class_arg_pop keyed by the qualified name)
+        "Shroud.LuaDispatch.class_arg_own_class",
+        "Shroud.LuaDispatch.class_arg_unknown_is_foreign",
+        "Shroud.LuaDispatch.class_arg_found_has_key",
+        "Shroud.LuaDispatch.class_arg_found_is_the_type",
+        "Shroud.LuaDispatch.unqualified_key_confuses",
+        "Shroud.LuaDispatch.constructed_accepted_as_named_argument",
         # the namespace tree: which scopes are visited, registration completeness at any depth
         "Shroud.LuaDispatch.visit_independent_of_content",
         "Shroud.LuaDispatch.visit_all",
@@ -191,11 +217,13 @@ def parse_emit(blk, group, classes=()):
     """One do_function body -> dict(ov, self, pops, nres, pushes, popfn_ok, ncalls)."""
     names = {}
     objcls = {}
+    objudt = {}
     # class-pointer argument: the userdata of the argument's class at the argument's index
-    for m in re.finditer(r'(\w+) = \(\((\w+) \*\) luaL_checkudata\( ?L, (\d+), "([^"]*)"\)\)->(\w+);', blk):
+    for m in re.finditer(r'(\w+) = \*?\(\((\w+) \*\) luaL_checkudata\( ?L, (\d+), "([^"]*)"\)\)->(\w+);', blk):
         names[m.group(1)] = ("luaL_checkudata", int(m.group(3)))
         cn = m.group(4)                 # `classes`: the metatable name of every class, by class index
         objcls[m.group(1)] = (list(classes).index(cn) + 1) if cn in classes else -1
+        objudt[m.group(1)] = m.group(2)
     for m in re.finditer(r"(\w+) = (?:static_cast<[^>]*>\()?\s*(lua_to\w+)\( ?L, (\d+)\)", blk):
         names[m.group(1)] = (m.group(2), int(m.group(3)))
     for m in re.finditer(r"const std::string (\w+)\( ?(lua_to\w+)\( ?L, (\d+)\)\)", blk):
@@ -205,7 +233,7 @@ def parse_emit(blk, group, classes=()):
     # the library call
     fn0 = group.fns[0]
     if group.kind == "ctor":
-        calls = re.findall(r"new (?:\w+::)*%s\(([^()]*)\)" % re.escape(group.cls), blk)
+        calls = re.findall(r"new (?:\w+::)*%s\(([^()]*)\)" % re.escape(luagen.short(group.cls)), blk)
     elif group.kind == "dtor":
         # the pointer is cleared after the delete: a second __gc deletes NULL
         calls = re.findall(r"delete SH_this->self; SH_this->self = NULL;()", blk)
@@ -223,19 +251,20 @@ def parse_emit(blk, group, classes=()):
             break
     if ov is None:
         raise ParseError("call %s(%s) is none of the declared signatures" % (fn0.name, ", ".join(args)))
-    pops, ok, acls = [], True, []
+    pops, ok, acls, audt = [], True, [], []
     for a, p in zip(args, group.fns[ov].params):
         if a not in names:
             raise ParseError("argument %s of %s is never read from the stack" % (a, fn0.name))
         pops.append(names[a][1])
         acls.append(objcls.get(a))
+        audt.append(objudt.get(a))
         ok = ok and names[a][0] == POPFN[p.kind]
     rm = re.findall(r"SH_nresult = (\d+);|return (\d+);", blk)
     nres = [int(a or b) for a, b in rm]
     if len(nres) != 1:
         raise ParseError("result count not found in %s" % blk[:200])
     pushes = len(re.findall(r"lua_push\w+\(|lua_newuserdata\(", blk))
-    return dict(ov=ov, self=selfidx, pops=pops, nres=nres[0], pushes=pushes, popfn_ok=ok, acls=acls,
+    return dict(ov=ov, self=selfidx, pops=pops, nres=nres[0], pushes=pushes, popfn_ok=ok, acls=acls, audt=audt,
                 extra_reads=sorted(set(names) - set(args)))
 
 
@@ -324,18 +353,50 @@ def class_info(jpath):
     j = json.load(open(jpath))["library"]
     out = []
 
-    def walk(node):
+    def walk(node, scope):
         for c in node.get("classes", []):
             if c.get("wrap", {}).get("lua"):
                 fd = c.get("fmtdict", {})
-                out.append(dict(name=c["name"], meta=fd.get("LUA_metadata"), reg=fd.get("LUA_class_reg"),
-                                ctor=fd.get("LUA_ctor_name")))
+                out.append(dict(name=c["name"], qname=scope + c["name"], tmname=c.get("typemap_name", scope + c["name"]),
+                                meta=fd.get("LUA_metadata"), reg=fd.get("LUA_class_reg"),
+                                ctor=fd.get("LUA_ctor_name"), udt=fd.get("LUA_userdata_type")))
         for ns in node.get("namespaces", []):
             if ns.get("wrap", {}).get("lua"):
-                walk(ns)
+                walk(ns, scope + ns["name"] + "::")
 
-    walk(j)
+    walk(j, "")
     return out
+
+
+def ci_for(cinfo, key):
+    """The wrapped class a harness class key means: the qualified name when the key is one, else the
+    (then unique) unqualified name."""
+    for ci in cinfo:
+        if ci["qname"] == key:
+            return ci
+    for ci in cinfo:
+        if ci["name"] == key:
+            return ci
+    return None
+
+
+def resolve_class_args(drv, cinfo, lib):
+    """The Lean model's `classArgPop` on Shroud's own table: keys = typemap name of every wrapped class in
+    the order they are visited (JSON dump), queries = the type every class-pointer parameter is declared
+    with.  Returns {declared type: 1-based class index or None (foreign)}."""
+    ids = {}
+
+    def q(name):
+        return ".".join(str(ids.setdefault(x, len(ids) + 1)) for x in name.split("::"))
+
+    types = sorted(set(p.ocls for g in lib.groups for f in g.fns for p in f.params if p.kind == "object"))
+    if not types:
+        return {}
+    out = drv.run(["argcls %s %s" % (",".join(q(ci["tmname"]) for ci in cinfo) or "-", ",".join(q(t) for t in types))])[0]
+    res = {}
+    for t, a in zip(types, out.split(",")):
+        res[t] = int(a[1:]) + 1 if a.startswith("o") else None
+    return res
 
 
 def locate(group, regs, metas, modreg, cinfo=()):
@@ -343,10 +404,8 @@ def locate(group, regs, metas, modreg, cinfo=()):
     if group.kind in ("free", "ctor"):
         table = modreg
     else:
-        table = None
-        for ci in cinfo:
-            if ci["name"] == group.cls:
-                table = ci["reg"]
+        ci = ci_for(cinfo, group.cls)
+        table = ci["reg"] if ci else None
     if table is None or table not in regs:
         return None, None
     hits = [c for (n, c) in regs[table] if n == group.luaname]
@@ -964,7 +1023,8 @@ def check_tables(ctx):
         if not tm.LUA_push.startswith("lua_push"):
             bad.append("%s: LUA_push %s" % (base, tm.LUA_push))
     stm = {d["name"]: d for d in wrapl.lua_statements}
-    need_in = ["lua_bool_scalar_in", "lua_native_scalar_in", "lua_string_*_in", "lua_string_&_in"]
+    need_in = ["lua_bool_scalar_in", "lua_native_scalar_in", "lua_string_*_in", "lua_string_&_in",
+               "lua_shadow_*_in", "lua_shadow_&_in", "lua_shadow_scalar_in"]
     need_res = ["lua_bool_scalar_result", "lua_native_scalar_result", "lua_string_scalar_result", "lua_string_&_result"]
     for nm in need_in:
         n += 1
@@ -1019,7 +1079,31 @@ def check_library(ctx, lib, d, emu_o, drv, r, thorough, stats, ok_lean):
     except (OSError, ValueError, KeyError):
         cinfo = []
     # metatable name of the i-th class as the class node has it: a site naming anything else names no class
-    meta_names = [next((ci["meta"] for ci in cinfo if ci["name"] == c), None) for c in classes]
+    meta_names = [(ci_for(cinfo, c) or {}).get("meta") for c in classes]
+    udt_names = [(ci_for(cinfo, c) or {}).get("udt") for c in classes]
+    # which class every class-pointer parameter means: decided by the Lean model from Shroud's own class table
+    if drv.available() and ok_lean:
+        try:
+            resolved = resolve_class_args(drv, cinfo, lib)
+        except (ValueError, IndexError, KeyError) as e:
+            resolved = {}
+            ctx.tie_broken("lua-class-resolution", "%s: %s" % (lib.name, e))
+        order = [ci["qname"] for ci in cinfo]
+        for g in lib.groups:
+            for f in g.fns:
+                for p_ in f.params:
+                    if p_.kind != "object" or p_.ocls not in resolved:
+                        continue
+                    stats["class_args_resolved"] += 1
+                    ci = ci_for(cinfo, p_.ocls)
+                    want = order.index(ci["qname"]) + 1 if ci else None
+                    if resolved[p_.ocls] != want:
+                        ctx.tie_broken("lua-class-resolution", {"library": lib.name, "type": p_.ocls,
+                                                                 "model": resolved[p_.ocls], "declared class": want})
+                    elif classes[want - 1] == p_.ocls:
+                        p_.clsid = resolved[p_.ocls]      # the model's answer goes into the `gen` request
+        if len(set(ci["name"] for ci in cinfo)) < len(cinfo):
+            stats["same_name_class_libraries"] += 1
     located = {}
     gen_reqs, gen_impl, gen_groups = [], [], []
     sanity = []
@@ -1044,6 +1128,10 @@ def check_library(ctx, lib, d, emu_o, drv, r, thorough, stats, ok_lean):
                 sanity.append("%s.%s: values read but not passed on: %s" % (lib.name, g.luaname, e["extra_reads"]))
             if e["pushes"] != e["nres"]:
                 sanity.append("%s.%s: %d value(s) pushed, %d reported" % (lib.name, g.luaname, e["pushes"], e["nres"]))
+            for c_, u_ in zip(e["acls"], e.get("audt", [])):
+                if c_ is not None and c_ >= 1 and u_ != udt_names[c_ - 1]:
+                    sanity.append("%s.%s: a class argument checked against the metatable of %s is read through the userdata "
+                                  "struct %s, not %s" % (lib.name, g.luaname, classes[c_ - 1], u_, udt_names[c_ - 1]))
     ctx.count(len(gen_reqs))
     stats["groups"] += len(gen_reqs)
     if drv.available() and ok_lean:
@@ -1189,7 +1277,7 @@ def run(ctx):
     ]
     check_tables_ok = None
     stats = dict(groups=0, switch=0, single=0, gen_disagree=0, run_disagree=0, calls=0, matching=0, nonmatching=0,
-                 violations=0, known=0, libraries=0, reg_tables=0, reg_entries=0, meta_sites=0, custom_meta_classes=0, empty_method_table_classes=0, gc_twice=0, class_arg_calls_right_class=0, class_arg_calls_wrong_class=0, wide_late_defaults=0, shape_hist={}, arity_hist={}, default_hist={}, scope_hist={})
+                 violations=0, known=0, libraries=0, reg_tables=0, reg_entries=0, meta_sites=0, custom_meta_classes=0, empty_method_table_classes=0, gc_twice=0, class_args_resolved=0, same_name_class_libraries=0, class_arg_calls_right_class=0, class_arg_calls_wrong_class=0, wide_late_defaults=0, shape_hist={}, arity_hist={}, default_hist={}, scope_hist={})
     d0 = common.scratch()
     try:
         emu_o = build_emulator(d0)
@@ -1236,6 +1324,8 @@ def run(ctx):
                                         "namespace, depth >= 3): %s" % sh)
     if stats["libraries"] and not (stats["custom_meta_classes"] and stats["empty_method_table_classes"]):
         ctx.tie_broken("lua-generator", "no class with a user-chosen metatable name / with an empty method table was generated")
+    if stats["libraries"] and not (stats["same_name_class_libraries"] and stats["class_args_resolved"]):
+        ctx.tie_broken("lua-generator", "no library with two wrapped classes of the same unqualified name used as arguments")
     if stats["libraries"] and stats["wide_late_defaults"] == 0:
         ctx.tie_broken("lua-generator", "no function with >= 5 parameters and >= 2 defaults starting at position >= 4 was generated")
 
